@@ -1149,6 +1149,10 @@ class Interp:
             if isinstance(obj, (A, S, T, Shape, Dep)) or getattr(type(obj), "__nss_symbolic__", False):
                 # a numpy attribute the symbolic classes do not model: a limit of the verifier, not of the program
                 raise Unsupported("attribute %r of a symbolic %s" % (name, type(obj).__name__))
+            if getattr(obj, "__dict__", {}).get("__nss_partial__"):
+                # an object the harness assembled without running the real constructor / earlier stage: a missing attribute is a
+                # limit of the harness (the real object would have it), not an AttributeError of the program
+                raise Unsupported("attribute %r is not provided by the harness-built %s" % (name, type(obj).__name__))
             raise UserRaise(ex)
         except Exception as ex:
             raise UserRaise(ex)
